@@ -27,4 +27,4 @@ Separate Extraction Z.add Z.mul Z.div Z.modulo Z.opp Z.sub Z.of_nat Z.to_nat Z.o
   Hostile.peer_id Hostile.new_peer_set Hostile.get_signatures Hostile.set_signature Hostile.fe_less
   Hostile.collect_roots Hostile.process_sigpool Hostile.ff_check Hostile.sync_request Hostile.join_request
   Hostile.eager_sync Hostile.quote_str
-  Recovery.db_of_log Recovery.bootstrap Recovery.head_seq Recovery.node_log.
+  Recovery.db_of_log Recovery.bootstrap Recovery.bootstrap_cur Recovery.head_seq Recovery.node_log.
